@@ -234,6 +234,26 @@ func vfC13(w *vfWorld) {
 			run(map[int]vfC13Fault{p[0]: basic[p[2]], p[1]: basic[p[3]]}, fmt.Sprintf("%s pair pos=%d,%d kinds=%s,%s", sc.Name, p[0], p[1], basic[p[2]].Name, basic[p[3]].Name))
 		}
 	}
+	if sc.Name == "ready" {
+		// readiness follows the store as it is NOW: right after successful probes the store becomes unreachable, the next
+		// probe (whenever it comes: at once, seconds or a minute later) must say not-ready; and ready again once it is back
+		probe := func() int { return w.NewBrowser("Bprobe", "192.0.2.99:1").Do(rep, &vfReq{Method: "GET", Target: "/ready", NoJar: true}).Status }
+		if st := probe(); st != 200 {
+			w.violate("C13", "fault-free-not-ready", "history", "readiness probe with the store up: %d", st)
+		}
+		w.redis.down = true
+		for _, d := range []time.Duration{0, time.Second, 4 * time.Second, time.Minute} {
+			w.Sleep(d)
+			if st := probe(); st == 200 {
+				w.violate("C13", "ready-while-store-down", "after-successful-probe", "the store became unreachable after a successful readiness probe; %v later the readiness endpoint still answers 200", d)
+			}
+		}
+		w.redis.down = false
+		w.Sleep(vfPick(t, "c13.ready-recover", []time.Duration{0, time.Second, 10 * time.Second}))
+		if st := probe(); st != 200 {
+			w.probe("c13:ready-slow-to-recover")
+		}
+	}
 	w.distKey = fmt.Sprintf("%s/%d", sc.Name, cs.Iterations)
 }
 
